@@ -9,4 +9,5 @@ UNITS = [
     ("contracts.conductor_gnt", "GetNextTasks"),
     ("contracts.conductor_eta", "EvaluateTaskActions"),
     ("contracts.conductor_eta", "EvaluateTaskRetry"),
+    ("contracts.conductor_uts", "UpdateTaskState"),
 ]
